@@ -384,7 +384,7 @@ func genC15(tier string, rng *Rng) {
 		maxN = 8
 	}
 	for n := 0; n <= maxN; n++ {
-		o := &fillOpt{rng: rng, tricky: true, pPresent: 50, maxSlice: 3, depthLimit: 5}
+		o := &fillOpt{xmlChars: true, rng: rng, tricky: true, pPresent: 50, maxSlice: 3, depthLimit: 5}
 		t := mkTopo(n, o)
 		runSvg(mkSvgCase(t, nil, defOpts, rng.Intn(6)))
 		runSvg(mkSvgCase(t, map[uint32]uint32{}, defOpts, rng.Intn(6)))
@@ -426,7 +426,7 @@ func genC15(tier string, rng *Rng) {
 				ns := rng.Intn(3)
 				for j := 0; j < ns; j++ {
 					s := topology.TopologyHWcTypeDefSubEl{}
-					fillValue(reflect.ValueOf(&s).Elem(), "", &fillOpt{rng: rng, pPresent: 70, maxSlice: 1, depthLimit: 2}, 1)
+					fillValue(reflect.ValueOf(&s).Elem(), "", &fillOpt{xmlChars: true, rng: rng, pPresent: 70, maxSlice: 1, depthLimit: 2}, 1)
 					d.Sub = append(d.Sub, s)
 				}
 				t := &topology.Topology{TypeIndex: map[uint32]topology.TopologyHWcTypeDef{1: d},
@@ -443,7 +443,7 @@ func genC15(tier string, rng *Rng) {
 		n3 = 25000
 	}
 	for i := 0; i < n3; i++ {
-		o := &fillOpt{rng: rng, tricky: rng.Intn(2) == 0, pPresent: 20 + rng.Intn(70), maxSlice: 3, depthLimit: 5}
+		o := &fillOpt{xmlChars: true, rng: rng, tricky: rng.Intn(2) == 0, pPresent: 20 + rng.Intn(70), maxSlice: 3, depthLimit: 5}
 		t := mkTopo(rng.Intn(7), o)
 		var m map[uint32]uint32
 		switch rng.Intn(4) {
@@ -472,7 +472,7 @@ func genC15(tier string, rng *Rng) {
 		n3b = 15000
 	}
 	for i := 0; i < n3b; i++ {
-		o := &fillOpt{rng: rng, tricky: rng.Intn(2) == 0, pPresent: 30 + rng.Intn(60), maxSlice: 2, depthLimit: 5}
+		o := &fillOpt{xmlChars: true, rng: rng, tricky: rng.Intn(2) == 0, pPresent: 30 + rng.Intn(60), maxSlice: 2, depthLimit: 5}
 		t := mkTopo(1+rng.Intn(4), o)
 		js, kind := mutateJSON(t.ToJSON(), rng)
 		var m map[uint32]uint32
@@ -489,7 +489,7 @@ func genC15(tier string, rng *Rng) {
 
 	// ---- 4. every base document with a fixed small topology
 	for bid := range baseDocs {
-		t := mkTopo(3, &fillOpt{rng: rng, pPresent: 60, maxSlice: 2, depthLimit: 4})
+		t := mkTopo(3, &fillOpt{xmlChars: true, rng: rng, pPresent: 60, maxSlice: 2, depthLimit: 4})
 		runSvg(mkSvgCase(t, nil, defOpts, bid))
 		runSvg(mkSvgCase(&topology.Topology{}, nil, defOpts, bid))
 		hist["base-sweep"]++
